@@ -185,26 +185,28 @@ func VerifC04_MissingMandatory() {
 // tail - unless `--` itself was taken as a value (the exempted case).
 func VerifC04_RawBefore() {
 	mode := vInt("mode", 0, 2)
-	um := 2 // quick tier: pass-through (parses most); all three unknown modes in the thorough tier
-	if vThorough() {
-		um = vInt("um", 0, 2)
-	}
+	um := vInt("um", 0, 2)
 	ro := vBool("ro")
 	vBound("runes", 2)
+	vBound("digits", 12) // numeral boundaries are C01's subject
 	t0 := vString("t0")
+	front := []string{t0}
+	if vThorough() {
+		front = append(front, vString("t0b")) // two unconstrained tokens in front
+	}
 	t1, t2 := vString("t1"), vString("t2")
 	define := func() relProg { return relDefine(mode, um, ro) }
 	a, b, c := define(), define(), define()
 	vPhase("run")
 	// the exempted case: the token alone still misses a mandatory value (or is
 	// rejected for another reason) - then `--` may legitimately become that value
-	_, errC := c.opt.Parse([]string{t0})
+	_, errC := c.opt.Parse(front)
 	if errC != nil {
 		vReach("exempt")
 		return
 	}
-	remB, errB := b.opt.Parse([]string{t0, "--"})
-	remA, errA := a.opt.Parse([]string{t0, "--", t1, t2})
+	remB, errB := b.opt.Parse(cat(front, []string{"--"}))
+	remA, errA := a.opt.Parse(cat(front, []string{"--", t1, t2}))
 	vObserve("errB", errB != nil)
 	vObserve("remB", remB)
 	vAssert("same/error-ness", (errA == nil) == (errB == nil))
@@ -248,5 +250,13 @@ func relDefine(mode, um int, ro bool) relProg {
 
 // relSame asserts that two runs left the same option state behind.
 func relSame(a, b relProg) {
-	relSame(a, b)
+	vAssert("same/b", *a.b == *b.b)
+	vAssert("same/s", *a.s == *b.s)
+	vAssert("same/o", *a.so == *b.so)
+	vAssert("same/l", eqStrs(*a.l, *b.l))
+	vAssert("same/i", *a.i == *b.i)
+	vAssert("same/x", *a.cmdx == *b.cmdx)
+	for _, n := range []string{"b", "s", "o", "l", "i"} {
+		vAssert("same/called", a.opt.Called(n) == b.opt.Called(n))
+	}
 }
